@@ -60,7 +60,7 @@ def run(tier):
     fjobs = []
     for (n, conn) in impl.SUPPORTED:
         ncirc = 2 ** n + 1
-        idxs = range(ncirc) if (n <= 4 or not quick) else sorted({0, ncirc - 1} | {rng.randrange(ncirc) for _ in range(10)})
+        idxs = range(ncirc)          # every circuit of every configuration (744 circuits): all 4^n - 1 (key, mask, sign) triples
         for i in idxs:
             fjobs.append({"N": n, "m": n, "list": None, "conn": conn, "index": i, "kind": "full", "meas": None, "counts": random_counts(n, rng), "full": True})
     frecs = par.pmap(workers.fitter_counts, fjobs)
@@ -87,8 +87,14 @@ def run(tier):
     for s in pick3:
         for conn in impl.conns(3):
             jobs.append({"N": 3, "m": 3, "list": None, "conn": conn, "comps": [[1, s["hist"]]], "kind": "full", "meas": None, "full": True, "dm": True})
+    from .. import sweep
     for n in range(2, 7):
         progs = [b["hist"] for b in models.simulate_programs(ck, n, 12 if quick else 400, 4 * n + 2, seed=ck.seed + 31 * n, names1=ONE, names2=TWO)]
+        named = sweep.named_states(n)
+        for conn in impl.conns(n):      # textbook states: each on at least one connectivity in the quick tier, on all in the thorough tier
+            for k, (name, prog) in enumerate(named):
+                if not quick or (k + impl.conns(n).index(conn)) % len(impl.conns(n)) == 0 or n <= 3:
+                    jobs.append({"N": n, "m": n, "list": None, "conn": conn, "comps": [[1, prog]], "kind": "full", "meas": None, "full": True, "dm": n <= 4, "name": name})
         for conn in impl.conns(n):
             k = {2: 6, 3: 6, 4: 4, 5: 2, 6: 1}[n] if quick else {2: 60, 3: 200, 4: 300, 5: 60, 6: 25}[n]
             for _ in range(k):
@@ -103,7 +109,7 @@ def run(tier):
     ck.sample({k: fgood[3][k] for k in ("N", "counts", "ro", "values")})
     ck.sample({"scenario": {k: jobs[-1][k] for k in ("N", "conn", "comps")}})
     ck.cov["exhaustive"] = False
-    ck.cov["exhaustive_parts"] = "n=2: all 60 stabilizer input states; all circuits of all configurations with n<=4 on arbitrary dictionaries" + ("" if quick else "; n=3: all 1080 states; all circuits n<=6")
+    ck.cov["exhaustive_parts"] = "n=2: all 60 stabilizer input states; all 744 circuits of all 20 configurations on arbitrary dictionaries" + ("" if quick else "; n=3: all 1080 states")
     ck.cov["rule"] = ("fitter records: (configuration, circuit index, count dictionary); scenarios: (n, conn, weighted list of TLC-generated preparation programs); "
                       "non-trivial = dictionary with more than one outcome / every scenario")
     ck.assumptions += ["linearity of the estimator in the counts (probed with arbitrary dictionaries and integer mixtures, not proved)",
